@@ -365,7 +365,7 @@ pub fn run(thorough: bool) -> Report {
         "states": states,
         "transitions": calls,
         "traces_validated_against_impl": jobs.len() as u64 * INSPECTIONS.len() as u64,
-        "programs": per_prog,
+        "fixed_programs": per_prog,
         "max_breaks_per_schedule": k,
         "schedules_by_number_of_breaks": schedules_by_size,
         "inspections": INSPECTIONS,
